@@ -560,8 +560,8 @@ fn gen_layers(rng: &mut Rng) -> (Vec<UnitsFile>, Vec<&'static str>) {
                 if g.rng.chance(1, 4) {
                     e.ratio = Some(g.ratio());
                 }
-                if g.rng.chance(1, 10) {
-                    e.difference = Some(1.5);
+                if g.rng.chance(1, 8) {
+                    e.difference = Some(*g.rng.pick(&[1.5, 0.0, -0.0, 273.15]));
                 }
                 if fault == 1 && is_si && si_defined && g.rng.chance(1, 2) {
                     // editing a generated unit with an EMPTY list is still editing it
@@ -894,6 +894,13 @@ fn shipped(ctx: &mut Ctx) {
                 &["[[quantity]]\nquantity = \"mass\"\nbest = { metric = [\"mg\", \"g\", \"kg\"], imperial = [\"oz\", \"lb\", \"tsp\"] }\n"],
                 &["[[quantity]]\nquantity = \"time\"\nbest = [\"ml\"]\n"],
                 &["[fractions.unit]\ntsp = false\n"],
+                // an edit that sets a value to what is usually the default
+                &["[extend.units]\nF = { difference = 0 }\n"],
+                &["[extend.units]\nC = { difference = -0.0, ratio = 1 }\nfahrenheit = { ratio = 1 }\n"],
+                // two keys of one unit in one block
+                &["[extend]\nprecedence = \"override\"\n[extend.units]\nl = { names = [\"litro\", \"litros\"] }\nlitre = { names = [\"liter\", \"litre\"] }\n"],
+                &["[extend.units]\ngram = { aliases = [\"gr\"] }\ng = { aliases = [\"gm\"] }\n"],
+                &["[extend.units]\nkg = { aliases = [\"kilo\"] }\nkilogram = { aliases = [\"kilos\"] }\n"],
                 &["[fractions]\nall = true\n[fractions.unit]\ng = false\nkg = { enabled = false }\n"],
                 &["[extend]\nprecedence = \"after\"\n[extend.units]\ng = { aliases = [\"gramme\"] }\n", "[extend]\nprecedence = \"after\"\n[extend.units]\ng = { aliases = [\"gr\"] }\n"],
                 &["[si]\nprecedence = \"before\"\n[si.prefixes]\nkilo = [\"quilo\", \"kilo-\"]\nhecto = []\ndeca = []\ndeci = []\ncenti = []\nmilli = []\n[si.symbol_prefixes]\nkilo = [\"K\", \"kk\"]\nhecto = []\ndeca = []\ndeci = []\ncenti = []\nmilli = []\n"],
